@@ -99,6 +99,7 @@ def analyse(trees, ext=None):
                                      "cannot decide `%s` in %s (elements %s): %s" % (r.expr, r.qualname, r.elem, r.reason[:200]), r.node))
     companion(pkg, cl, res)
     history(pkg, cl, res)
+    persistent_iterators(pkg, cl, res)
     return res
 
 
@@ -355,10 +356,151 @@ def history(pkg, cl, res):
                                     tgt = (b.id, "rebinds the module-level name")
                             elif isinstance(ft, ast.Attribute) and any(isinstance(a, tuple) and a[0] in ("obj", "cls") for a in t):
                                 tgt = (b.id, "sets an attribute of the module-level object")
+            if tgt is None and isinstance(n, (ast.Assign, ast.AugAssign)):
+                for t0 in (n.targets if isinstance(n, ast.Assign) else [n.target]):
+                    if isinstance(t0, ast.Attribute):
+                        v = t0.value
+                        is_cls = (isinstance(v, ast.Call) and isinstance(v.func, ast.Name) and v.func.id == "type" and len(v.args) == 1) or \
+                                 (isinstance(v, ast.Attribute) and v.attr == "__class__") or \
+                                 (isinstance(v, ast.Name) and getattr(sc, "is_classmethod", False) and sc.params and v.id == sc.params[0])
+                        if is_cls:
+                            tgt = (norm_src(v), "stores into the class object (shared by all instances)")
             if tgt:
                 res.obligations.append(("process-history", "%s | %s" % (sc.qualname, norm_src(n)[:80]), False, ""))
                 res.findings.append(("process-history", sc, n,
                                      "%s `%s` from inside a function: state survives from one decompilation to the next" % (tgt[1], tgt[0]), n, None))
+
+
+ITER_CTORS = {"count", "cycle", "repeat", "iter", "islice", "chain", "zip", "map", "filter", "enumerate", "reversed", "accumulate", "product"}
+
+
+def _is_iterator_ctor(pkg, e, sc):
+    """the expression creates an iterator object (itertools.count(), iter(...), a generator ...)"""
+    if isinstance(e, ast.GeneratorExp):
+        return "generator expression"
+    if isinstance(e, ast.Call):
+        f = e.func
+        nm = f.id if isinstance(f, ast.Name) else (f.attr if isinstance(f, ast.Attribute) else None)
+        if nm in ITER_CTORS:
+            base = f if isinstance(f, ast.Name) else f.value
+            if isinstance(base, ast.Name) and pkg.lookup(base.id, sc) == frozenset(["top"]):
+                return "%s(...)" % norm_src(f)
+        for callee, _, _ in pkg.callees(e, sc):
+            if callee.is_gen:
+                return "generator %s()" % callee.qualname
+    return None
+
+
+def _formatted(n):
+    """is the value of expression n formatted into a string (%, format, f-string, str(), join)? -> the formatting node"""
+    p, child = getattr(n, "_parent", None), n
+    while p is not None and not isinstance(p, ast.stmt):
+        if isinstance(p, ast.BinOp) and isinstance(p.op, ast.Mod) and (p.right is child or isinstance(p.right, ast.Tuple)) and p.left is not child:
+            return p
+        if isinstance(p, (ast.FormattedValue, ast.JoinedStr)):
+            return p
+        if isinstance(p, ast.Call) and child in p.args:
+            f = p.func
+            if isinstance(f, ast.Attribute) and f.attr in ("format", "join"):
+                return p
+            if isinstance(f, ast.Name) and f.id in ("str", "repr", "format"):
+                return p
+        if isinstance(p, ast.BinOp) and isinstance(p.op, ast.Add):
+            pass
+        elif isinstance(p, (ast.Tuple,)):
+            pass
+        elif not isinstance(p, (ast.BinOp, ast.Call, ast.IfExp)):
+            break
+        child, p = p, getattr(p, "_parent", None)
+    return None
+
+
+def persistent_iterators(pkg, cl, res):
+    """process-history, part (d): an iterator / counter object bound at class or module level (itertools.count(), iter(...),
+    a generator) survives every decompilation; advancing it with next() inside the decompiler makes the numbers it yields
+    depend on how much was decompiled before.  Positive when the object is provably class-/module-level (never re-bound per
+    instance) and the drawn value is formatted into a string; otherwise undecided."""
+    from ..unordered import _walk_no_nested
+    # class-level and module-level iterator objects
+    persistent = {}  # ('cls', C, attr) | ('mod', relpath, name) -> description
+    for ci in pkg.classes.values():
+        ms = pkg._module_scope[ci.relpath]
+        for a, e in ci.attrs.items():
+            d = _is_iterator_ctor(pkg, e, ms)
+            if d:
+                persistent[("cls", ci.name, a)] = "class attribute %s.%s = %s" % (ci.name, a, d)
+    for rp, ms in pkg._module_scope.items():
+        for st in ms.node.body:
+            if isinstance(st, ast.Assign) and len(st.targets) == 1 and isinstance(st.targets[0], ast.Name):
+                d = _is_iterator_ctor(pkg, st.value, ms)
+                if d:
+                    persistent[("mod", rp, st.targets[0].id)] = "module-level %s = %s" % (st.targets[0].id, d)
+    res.counts["persistent_iterators"] = len(persistent)
+    if not persistent:
+        return
+    for sc in sorted(pkg.scopes.values(), key=lambda s: s.id):
+        if sc.kind == "module" or pkg.scope_of_node.get(id(sc.node)) is not sc:
+            continue
+        body = list(sc.node.body) if sc.kind == "func" else [sc.node.body]
+        for n in _walk_no_nested(body):
+            arg = None
+            if isinstance(n, ast.Call) and isinstance(n.func, ast.Name) and n.func.id == "next" and n.args and cl.is_builtin(n.func, sc):
+                arg = n.args[0]
+            elif isinstance(n, ast.Call) and isinstance(n.func, ast.Attribute) and n.func.attr == "__next__":
+                arg = n.func.value
+            if arg is None:
+                continue
+            hits, rebound = [], False
+            if isinstance(arg, ast.Attribute):
+                t = pkg.ev(arg.value, sc)
+                for a in sorted(t, key=repr):
+                    if isinstance(a, tuple) and a[0] in ("obj", "cls") and a[1] in pkg.classes:
+                        for k in pkg.mro(a[1]):
+                            if ("cls", k, arg.attr) in persistent:
+                                hits.append(("cls", k, arg.attr))
+                                if a[0] == "obj" and any((k2, arg.attr) in pkg.attr for k2 in pkg.related(k)):
+                                    rebound = True
+                                break
+                if isinstance(arg.value, ast.Name) and ("mod", None, None):
+                    mt = [x for x in t if isinstance(x, tuple) and x[0] == "mod"]
+                    for x in mt:
+                        if ("mod", x[1], arg.attr) in persistent:
+                            hits.append(("mod", x[1], arg.attr))
+            elif isinstance(arg, ast.Name):
+                ms = pkg._module_scope[sc.relpath]
+                if pkg.owner_scope(arg.id, sc) is ms:
+                    if ("mod", sc.relpath, arg.id) in persistent:
+                        hits.append(("mod", sc.relpath, arg.id))
+                    else:
+                        imp = pkg.imports.get(sc.relpath, {}).get(arg.id)
+                        if imp and imp[1] and imp[0] in pkg.by_dotted and ("mod", pkg.by_dotted[imp[0]], imp[1]) in persistent:
+                            hits.append(("mod", pkg.by_dotted[imp[0]], imp[1]))
+            for h in dict.fromkeys(hits):
+                what = persistent[h]
+                inst = "%s | %s" % (sc.qualname, norm_src(n)[:70])
+                fmt = _formatted(n)
+                if fmt is None:
+                    # one hop through a local: v = next(X) ... '%d' % v
+                    st = n
+                    while st is not None and not isinstance(st, ast.stmt):
+                        st = getattr(st, "_parent", None)
+                    if isinstance(st, ast.Assign) and st.value is n and len(st.targets) == 1 and isinstance(st.targets[0], ast.Name) and sc.kind == "func":
+                        v = st.targets[0].id
+                        for u in _walk_no_nested(list(sc.node.body)):
+                            if isinstance(u, ast.Name) and u.id == v and isinstance(u.ctx, ast.Load) and _formatted(u) is not None:
+                                fmt = _formatted(u)
+                                break
+                if fmt is not None and not rebound:
+                    res.obligations.append(("process-history", inst, False, ""))
+                    res.findings.append(("process-history", sc, n,
+                                         "%s is one object for the whole process (never re-bound per instance); %s advances it and the number drawn is "
+                                         "formatted into `%s`: the text depends on how much was decompiled earlier in the process"
+                                         % (what, norm_src(n)[:40], norm_src(fmt)[:60]), n, dict(persistent=what)))
+                else:
+                    res.obligations.append(("process-history", inst, True, "UNDECIDED"))
+                    res.undetermined.append((sc, n, "%s is advanced by %s in %s; %s" % (
+                        what, norm_src(n)[:40], sc.qualname,
+                        "the attribute is also re-bound per instance somewhere" if rebound else "where the drawn value goes is not followed"), n))
 
 # ---------------------------------------------------------------------------------------------
 # frozen design-time classification (DESIGN.md Appendix D).  A row is matched by role: function, a name that
@@ -447,11 +589,11 @@ def fixture_check():
     res = analyse({"fixture/unordered_fixture.py": tree}, ext)
     fired = {}
     for rule, sc, c, m, n, w in res.findings:
-        fired.setdefault(sc.qualname, set()).add(rule)
-    und = {sc.qualname for sc, c, m, n in res.undetermined}
+        fired.setdefault(sc.qualname.split(".")[-1], set()).add(rule)
+    und = {sc.qualname.split(".")[-1] for sc, c, m, n in res.undetermined}
     problems = []
     n_pos = n_neg = 0
-    for st in tree.body:
+    for st in ast.walk(tree):
         if not isinstance(st, ast.FunctionDef):
             continue
         name = st.name
